@@ -311,7 +311,7 @@ Section Proofs.
     { apply Forall_forall. intros rq Hin. destruct (snd (api_enforce parse oracle M rq)) eqn:E; [|reflexivity].
       assert (existsb (fun rq => snd (api_enforce parse oracle M rq)) rqs = true)
         as Hx by (apply existsb_exists; exists rq; split; assumption).
-      Show. admit. }
+      change (existsb (fun rq => failed (enforce M "" rq)) rqs = true) in Hx. congruence. }
     split; [|exact Hall]. clear He. f_equal.
     induction rqs as [|rq t IH]; [reflexivity|]. inversion Hall; subst. cbn [ok_prefix].
     unfold api_enforce in H1. cbn [snd] in H1. rewrite H1. f_equal. apply IH. assumption.
@@ -396,3 +396,70 @@ Qed.
 (* a non-string argument is the a.(string) panic of GenerateGFunction, never a decision *)
 Theorem g_call_non_string count ls vs : all_strings vs = None -> g_call count ls vs = Panic.
 Proof. intros H. unfold g_call. rewrite H. reflexivity. Qed.
+
+(* the same at the level of the matcher evaluator: a call g(a, b) / g(a, b, dom) whose
+   arguments evaluate to strings *)
+Lemma eval_g_call2 parse oracle fuel en f count ls ea eb a b :
+  (eval_in_scope en && String.eqb f "eval") = false ->
+  lookup f (gdefs en) = Some (count, ls) ->
+  eval parse oracle fuel en ea = Ok (VStr a) -> eval parse oracle fuel en eb = Ok (VStr b) ->
+  eval parse oracle fuel en (ECall f [ea; eb]) = g_call count ls [VStr a; VStr b].
+Proof.
+  intros He Hl Ha Hb. destruct fuel; cbn [eval]; cbn [eval] in Ha, Hb; rewrite Ha, Hb, He, Hl; reflexivity.
+Qed.
+
+Lemma eval_g_call3 parse oracle fuel en f count ls ea eb ed a b d :
+  (eval_in_scope en && String.eqb f "eval") = false ->
+  lookup f (gdefs en) = Some (count, ls) ->
+  eval parse oracle fuel en ea = Ok (VStr a) -> eval parse oracle fuel en eb = Ok (VStr b) ->
+  eval parse oracle fuel en ed = Ok (VStr d) ->
+  eval parse oracle fuel en (ECall f [ea; eb; ed]) = g_call count ls [VStr a; VStr b; VStr d].
+Proof.
+  intros He Hl Ha Hb Hd.
+  destruct fuel; cbn [eval]; cbn [eval] in Ha, Hb, Hd; rewrite Ha, Hb, Hd, He, Hl; reflexivity.
+Qed.
+
+Theorem g_is_bounded_reachability parse oracle fuel en f count ls ea eb a b :
+  (eval_in_scope en && String.eqb f "eval") = false ->
+  lookup f (gdefs en) = Some (count, ls) ->
+  eval parse oracle fuel en ea = Ok (VStr a) -> eval parse oracle fuel en eb = Ok (VStr b) ->
+  exists v, eval parse oracle fuel en (ECall f [ea; eb]) = Ok (VBool v) /\
+            (v = true <-> exists k, k <= max_level /\ walk ls "" a b k).
+Proof.
+  intros He Hl Ha Hb. rewrite (eval_g_call2 parse oracle fuel en f count ls ea eb a b He Hl Ha Hb). apply g_call_two_args.
+Qed.
+
+Theorem g_domain_is_bounded_reachability parse oracle fuel en f count ls ea eb ed a b d :
+  3 <= count ->
+  (eval_in_scope en && String.eqb f "eval") = false ->
+  lookup f (gdefs en) = Some (count, ls) ->
+  eval parse oracle fuel en ea = Ok (VStr a) -> eval parse oracle fuel en eb = Ok (VStr b) ->
+  eval parse oracle fuel en ed = Ok (VStr d) ->
+  exists v, eval parse oracle fuel en (ECall f [ea; eb; ed]) = Ok (VBool v) /\
+            (v = true <-> exists k, k <= max_level /\ walk ls d a b k).
+Proof.
+  intros Hc He Hl Ha Hb Hd. rewrite (eval_g_call3 parse oracle fuel en f count ls ea eb ed a b d He Hl Ha Hb Hd).
+  apply g_call_domain. exact Hc.
+Qed.
+
+(* short-circuit: a false left operand of && (true of ||) decides without looking at the
+   right operand, whatever it is (ill-typed, failing, panicking) *)
+Lemma eval_and_short parse oracle fuel en a b :
+  eval parse oracle fuel en a = Ok (VBool false) ->
+  eval parse oracle fuel en (EBin OAnd a b) = Ok (VBool false).
+Proof. intros Ha. destruct fuel; cbn [eval]; cbn [eval] in Ha; rewrite Ha; reflexivity. Qed.
+
+Lemma eval_or_short parse oracle fuel en a b :
+  eval parse oracle fuel en a = Ok (VBool true) ->
+  eval parse oracle fuel en (EBin OOr a b) = Ok (VBool true).
+Proof. intros Ha. destruct fuel; cbn [eval]; cbn [eval] in Ha; rewrite Ha; reflexivity. Qed.
+
+(* eval() nesting: with no fuel left an eval() call is the nesting error, never a recursion *)
+Lemma eval_nesting_exhausted parse oracle en ea v :
+  eval_in_scope en = true ->
+  eval parse oracle 0 en ea = Ok v ->
+  eval parse oracle 0 en (ECall "eval" [ea]) = Err.
+Proof.
+  intros Hs Ha. cbn [eval]. cbn [eval] in Ha. rewrite Ha, Hs. cbn [String.eqb Ascii.eqb Bool.eqb andb].
+  destruct v; try reflexivity. destruct l as [|x [|y l']]; reflexivity.
+Qed.
